@@ -174,7 +174,16 @@ func (l AbstractListSchema[ItemType]) ValidateCompatibility(typeOrData any) erro
 				itemsValueField.Interface()),
 		}
 	}
-	// Note: Not currently bothering with validating min and max fields
+	// Lists whose size ranges cannot overlap can never be compatible. As for the other types, anything else is
+	// accepted.
+	minValue, _ := listSchemaField.FieldByName("MinValue").Interface().(*int64)
+	maxValue, _ := listSchemaField.FieldByName("MaxValue").Interface().(*int64)
+	if (l.MaxValue != nil && minValue != nil && (*minValue) > (*l.MaxValue)) ||
+		(l.MinValue != nil && maxValue != nil && (*maxValue) < (*l.MinValue)) {
+		return &ConstraintError{
+			Message: "mutually exclusive lengths between list schemas",
+		}
+	}
 	// Validate the list sub-type
 	return l.ItemsValue.ValidateCompatibility(itemType)
 }
